@@ -44,11 +44,20 @@ def execute(cfg, prefix, on_point=None, line=False, seam='fork'):
         return bool(mask >> row['i'] & 1)
     predicate = None if (mask == full and cfg.get('nopred')) else pred
     try:
+        def upstream(rows):
+            # the upstream iterator is the environment: it may take arbitrarily long to produce its next row
+            for r in rows:
+                if cfg.get('slow_upstream'):
+                    s.env_wait()
+                yield r
+            if cfg.get('slow_upstream'):
+                s.env_wait()
+
         def body(s):
             rows = [{'i': k, 'n': 0} for k in range(R)]
             out = []
             if seam == 'fork':
-                for r in m.fork(iter(rows), rowfunc, N, predicate):
+                for r in m.fork(upstream(rows), rowfunc, N, predicate):
                     out.append(r)
                     s.delivered.append(r['i'])
             elif seam == 'chain2':
@@ -298,6 +307,8 @@ def tasks(tier):
         out.append({'cfg': {'N': 1, 'R': 2, 'mask': 1}, 'mode': 'line', 'bound': 1})
         out.append({'cfg': {'N': 1, 'R': 1, 'mask': 1, 'nopred': True}, 'mode': 'stateful', 'seam': 'flow'})
         out.append({'cfg': {'N': 2, 'R': 2, 'mask': 2}, 'mode': 'stateful', 'seam': 'flow'})
+        for N_, R_, mask_ in ((1, 2, 3), (1, 3, 5), (2, 2, 3), (2, 3, 6)):
+            out.append({'cfg': {'N': N_, 'R': R_, 'mask': mask_, 'slow_upstream': True}, 'mode': 'stateful'})
         out.append({'cfg': {'N': 1, 'R': 1, 'mask': 1}, 'mode': 'stateful', 'seam': 'chain2'})
         out.append({'cfg': {'N': 1, 'R': 2, 'mask': 3}, 'mode': 'stateful', 'seam': 'chain2'})
         out.append({'cfg': {'N': 1, 'R': 1, 'mask': 1}, 'mode': 'line-dev', 'bound': 1, 'seam': 'chain2'})
@@ -305,6 +316,10 @@ def tasks(tier):
         out.append({'cfg': {'N': 2, 'R': 2, 'mask': 3}, 'mode': 'deviation', 'bound': 2})
         out.append({'cfg': {'N': 2, 'R': 2, 'mask': 3}, 'mode': 'line-dev', 'bound': 1})
     else:
+        for N_ in (1, 2, 3):
+            for R_ in (1, 2, 3):
+                for mask_ in range(1, 1 << R_):
+                    out.append({'cfg': {'N': N_, 'R': R_, 'mask': mask_, 'slow_upstream': True}, 'mode': 'stateful', 'max_exec': 250000})
         out.append({'cfg': {'N': 1, 'R': 2, 'mask': 3}, 'mode': 'stateful', 'seam': 'chain2'})
         out.append({'cfg': {'N': 1, 'R': 3, 'mask': 5}, 'mode': 'stateful', 'seam': 'chain2', 'max_exec': 250000})
         out.append({'cfg': {'N': 2, 'R': 2, 'mask': 3}, 'mode': 'stateful', 'seam': 'chain2', 'max_exec': 250000})
